@@ -850,3 +850,6 @@ package table
 //@   ensures o == oc.BGP_ORIGIN_ATTR_TYPE_EGP ==> result == api.OriginType_ORIGIN_TYPE_EGP
 //@   ensures o == oc.BGP_ORIGIN_ATTR_TYPE_INCOMPLETE ==> result == api.OriginType_ORIGIN_TYPE_INCOMPLETE
 //@   ensures o != oc.BGP_ORIGIN_ATTR_TYPE_IGP && o != oc.BGP_ORIGIN_ATTR_TYPE_EGP && o != oc.BGP_ORIGIN_ATTR_TYPE_INCOMPLETE ==> result == api.OriginType_ORIGIN_TYPE_UNSPECIFIED
+//@ func (*RoutingPolicy).statementInUse
+//@   claims frame
+//@   modifies nothing
